@@ -248,6 +248,9 @@ func walkModule(m *sysl.Module) map[string]*found {
 				w.put(pp, "parameter", pa.GetType().GetSourceContexts(), pa.GetType().GetSourceContext()) //nolint:staticcheck
 				w.attrs(pp, pa.GetType().GetAttrs())
 			}
+			for i, u := range e.GetRestParams().GetUrlParam() {
+				w.put(fmt.Sprintf("V|%s|%d", ep, i), "path-parameter", u.GetType().GetSourceContexts(), u.GetType().GetSourceContext()) //nolint:staticcheck
+			}
 			for i, q := range e.GetRestParams().GetQueryParam() {
 				w.put(fmt.Sprintf("Q|%s|%d", ep, i), "parameter", q.GetType().GetSourceContexts(), q.GetType().GetSourceContext()) //nolint:staticcheck
 			}
@@ -263,6 +266,9 @@ type Input struct {
 	Root   string            `json:"root"`
 	Files  map[string]string `json:"files"`
 	Decls  []*Decl           `json:"decls"` // in declaration order
+	// elements a subscription ("Pub -> Event:") creates without writing them: the publisher's application and event
+	// endpoint. They may be in the module WITHOUT any location.
+	Implicit []string `json:"implicit,omitempty"`
 }
 
 func lineRunes(text string) []int {
@@ -293,12 +299,23 @@ func judge(c *common.Ctx, cs Input, cm compiled) (got map[string]*found, cerr st
 	}
 	// expected: module path -> recorded declarations in order
 	exp := map[string][]*Decl{}
+	// the declaration applied LAST to a path: a declaration inherited again (a method declared again below a REST path
+	// with attributes) counts at the time of the later method
+	lastApplied := map[string]*Decl{}
+	lastStamp := map[string]int{}
 	var order []string
 	for _, d := range cs.Decls {
 		if d.Replaced {
 			continue // written inside a declaration that a later one replaced: no element of the module
 		}
-		for _, p := range d.Paths {
+		for pi, p := range d.Paths {
+			st := d.Ord
+			if pi < len(d.Stamps) {
+				st = d.Stamps[pi]
+			}
+			if st >= lastStamp[p] {
+				lastStamp[p], lastApplied[p] = st, d
+			}
 			if _, ok := exp[p]; !ok {
 				order = append(order, p)
 			}
@@ -311,6 +328,7 @@ func judge(c *common.Ctx, cs Input, cm compiled) (got map[string]*found, cerr st
 			if !dup {
 				exp[p] = append(exp[p], d)
 			}
+
 		}
 	}
 	fail := func(key, what string) { c.Fail(key, what, cs) }
@@ -384,10 +402,18 @@ func judge(c *common.Ctx, cs Input, cm compiled) (got map[string]*found, cerr st
 				key = "count:placeholder-endpoint-no-location"
 			case (ds[0].Kind == kEnum || ds[0].Kind == kAlias || ds[0].Kind == kUnion) && len(ds) > 1 && len(f.cs) == 1 && at(ds[len(ds)-1], f.cs[0]):
 				key = "count:type-replaced-keeps-last:" + map[int]string{kEnum: "enum", kAlias: "alias", kUnion: "union"}[ds[0].Kind]
+			case ds[0].Kind == kPathVar && len(ds) > 1 && len(f.cs) == 1 && at(ds[len(ds)-1], f.cs[0]):
+				key = "count:path-parameter-replaced-keeps-last"
+			case ds[0].Kind == kSubscribe && len(ds) > 1 && len(f.cs) == 1 && at(ds[len(ds)-1], f.cs[0]):
+				key = "count:subscription-replaced-keeps-last"
 			case ds[0].Kind == kEvent && len(f.cs) == 1 && at(ds[0], f.cs[0]):
 				key = "count:event-redeclared-keeps-first"
 			case ds[0].Kind == kNvp && len(f.cs) == 1 && at(ds[len(ds)-1], f.cs[0]):
 				key = "count:attribute-replaced-keeps-last:" + ds[len(ds)-1].Form
+			case ds[0].Kind == kNvp && len(f.cs) == 1 && lastApplied[p] != nil && at(lastApplied[p], f.cs[0]):
+				// the last declaration APPLIED is an inherited one applied again (a REST path attribute, the method below
+				// declared again in a later block of the path)
+				key = "count:attribute-replaced-keeps-last:" + lastApplied[p].Form
 			case ds[0].Kind == kAnno && lead > 0 && same(afterEmpties):
 				key = "count:annotation-leading-empty-dropped:" + ds[0].Form
 			case ds[0].Kind == kAnno && allMulti && len(ds) > 1 && same(doubled):
@@ -431,8 +457,15 @@ func judge(c *common.Ctx, cs Input, cm compiled) (got map[string]*found, cerr st
 	}
 	// elements of the module the renderer did not write
 	var extra []string
+	implicit := map[string]bool{}
+	for _, p := range cs.Implicit {
+		implicit[p] = true
+	}
 	for p := range got {
 		if _, ok := exp[p]; !ok {
+			if implicit[p] && len(got[p].cs) == 0 && got[p].single == nil {
+				continue // created by a subscription, never written: no location to be wrong
+			}
 			extra = append(extra, p)
 		}
 	}
